@@ -61,6 +61,8 @@ pub struct Fx<'a> {
     pub display: Option<String>,
     pub sites: Vec<Site>,
     pub calls: BTreeSet<String>,
+    /// functions of the crate that are called but not configured: translated on the fly, emitted before their user
+    pub auto_helpers: BTreeSet<String>,
     pub mode: Mode,
     /// closures of the current function that are emitted as definitions of their own: (line, column) -> reference
     pub closure_refs: HashMap<(usize, usize), String>,
@@ -198,7 +200,7 @@ fn render(lines: &[Line]) -> String {
 
 impl<'a> Fx<'a> {
     pub fn new(krate: &'a Crate, self_ty: Option<String>) -> Self {
-        Fx { krate, self_ty, var_ty: HashMap::new(), display: None, sites: vec![], calls: BTreeSet::new(), mode: Mode::Id, closure_refs: HashMap::new(), enclosing: String::new(), tmp: 0 }
+        Fx { krate, self_ty, var_ty: HashMap::new(), display: None, sites: vec![], calls: BTreeSet::new(), auto_helpers: BTreeSet::new(), mode: Mode::Id, closure_refs: HashMap::new(), enclosing: String::new(), tmp: 0 }
     }
 
     fn site(&mut self, kind: &str, sp: proc_macro2::Span, text: String) {
@@ -1576,7 +1578,24 @@ impl<'a> Fx<'a> {
             if let Some(lt) = lean_type_name(&ty) {
                 if self.krate.fns.iter().any(|f| f.ty.as_deref() == Some(ty.as_str()) && f.tr.is_empty() && f.sig.ident == last.as_str()) {
                     self.calls.insert(format!("{}::{}", ty, last));
+                    if !is_configured(&ty, &last) {
+                        self.auto_helpers.insert(format!("{}::{}", ty, last));
+                    }
                     let name = format!("{}.rs_{}", lt, last);
+                    if args.is_empty() {
+                        return Ok(name);
+                    }
+                    return Ok(format!("({} {})", name, args.join(" ")));
+                }
+            }
+        }
+        // a free function of the crate that is not a parser: translated on the fly
+        if segs.len() == 1 {
+            if let Some(f) = self.krate.fns.iter().find(|f| f.qual == last && f.ty.is_none()) {
+                if parser_output(&f.sig).is_none() {
+                    self.calls.insert(last.clone());
+                    self.auto_helpers.insert(last.clone());
+                    let name = format!("Semver.Gen.auto_{}", last);
                     if args.is_empty() {
                         return Ok(name);
                     }
@@ -1617,6 +1636,9 @@ impl<'a> Fx<'a> {
         if !owners.is_empty() {
             for o in &owners {
                 self.calls.insert(format!("{}::{}", o, name));
+                if !is_configured(o, &name) {
+                    self.auto_helpers.insert(format!("{}::{}", o, name));
+                }
             }
             // the receiver's type decides; Lean's dot notation resolves `x.rs_name` in the namespace of x's type
             if owners.len() == 1 {
@@ -1734,6 +1756,10 @@ fn check_block_attrs(b: &Block) -> R<()> {
         Some(e) => Err(e),
         None => Ok(()),
     }
+}
+
+fn is_configured(ty: &str, name: &str) -> bool {
+    config::ITEMS.iter().any(|i| matches!(i, config::Item::Method { ty: t, tr, name: n } if *t == ty && tr.is_empty() && *n == name))
 }
 
 fn as_ptr_operand(e: &Expr) -> Option<&Expr> {
